@@ -16,14 +16,19 @@ FATAL = {
             "shim": MEMSHIM, "shim_when": "size", "must_exercise": ("SizeSafe",)},
     "C07": {"always": ("RejectedIsNoop", "Utf8OK", "ResultOK.index"), "must_exercise": ("RejectedIsNoop",)},
     "C08": {"always": ("CloneCheap",), "must_exercise": ("CloneCheap",)},
-    "C09": {"always": ("CtorStorage", "InlineEdit", "PtrOK"), "must_exercise": ("CtorStorage", "InlineEdit")},
+    "C09": {"always": ("CtorStorage", "InlineEdit", "PtrOK"), "must_exercise": ("CtorStorage", "InlineEdit"),
+            "conv": ("IntStorage", "BoolStorage", "CharStorage", "StrStorage", "FloatStorage")},
+    "C17": {"always": ("TextOnly",), "must_exercise": ("TextOnly", "TextOnlySame")},
+    # C20: the niche and the representation invariants, plus C01-C03's predicates on every build configuration
+    "C20": {"always": ("NicheFree", "PtrOK", "TextOK", "ResultOK", "Isolation", "StaticsOK", "RcOK", "BlocksOK", "NoResizeShared", "EndClean", "Abort"),
+            "shim": MEMSHIM, "must_exercise": ("InlineEdit",)},
     "C10": {"always": ("StaticBorrow", "StaticPrefix", "StaticsOK"), "must_exercise": ("StaticBorrow",)},
     "C11": {"always": ("CapOK", "WithCap", "ReservePost", "NoReallocInCap"), "must_exercise": ("WithCap", "ReservePost", "NoReallocInCap")},
     "C12": {"always": ("Growth",), "must_exercise": ("Growth",)},
     "C13": {"always": ("ShrinkPost",), "must_exercise": ("ShrinkPost",)},
     "C04": {},
     "C14": {"conv": ("IntText",)},
-    "C15": {"conv": ("BoolText", "CharText", "StrText", "DispOK", "FloatOK")},
+    "C15": {"conv": ("BoolText", "CharText", "StrText", "DispOK", "FloatOK"), "always": ("ResultOK.display", "TextOK.display")},
     "C16": {"codec": ("utf8", "utf8_lossy", "utf16", "utf16_lossy", "memory")},
     "C19": {"codec": ("de_*",), "conv": ("SerOK", "ArbOK")},
     "C18": {"always": ("CallbackPanicOK",), "when": {"cbpanic": ("RcOK", "BlocksOK", "EndClean", "TextOK", "Isolation", "Abort")},
@@ -45,38 +50,47 @@ def mc(cfg, **kw):
 def drive(name, histories, ops, mode="mixed", files=8):
     return {"kind": "drive", "name": name, "histories": histories, "ops": ops, "mode": mode, "files": files}
 
-CORE3, CORE4 = mc("MC_Core_d3"), mc("MC_Core_d4")
-SEED2, FAIL2, SIZES2, IDX1 = mc("MC_Seeded_d2"), mc("MC_Fail_d2"), mc("MC_Sizes_d2"), mc("MC_Idx_d1")
+CORE3, CORE4, CORE5 = mc("MC_Core_d3"), mc("MC_Core_d4"), mc("MC_Core_d5")
+SEED1, SEED2, SEED3 = mc("MC_Seeded_d1"), mc("MC_Seeded_d2"), mc("MC_Seeded_d3")
+FAIL2, FAILP, SIZES2, IDX1 = mc("MC_Fail_d2"), mc("MC_Fail2_d2"), mc("MC_Sizes_d2"), mc("MC_Idx_d1")
+FINAL2, SHRINK2, PAIRS2, CORE3H = mc("MC_Final_d2"), mc("MC_Shrink_d2"), mc("MC_Pairs_d2"), mc("MC_Core3_d4")
+CONV, PROOF = {"kind": "conv"}, {"kind": "proof"}
 
 def conc(name, threads, configs, **kw):
     d = {"kind": "conc", "name": name, "threads": threads, "configs": configs}
     d.update(kw)
     return d
 
-def dq(mode): return drive("q-" + mode, 10, 120, mode, 8)      # ~10 k records
-def dt(mode): return drive("t-" + mode, 40, 250, mode, 16)     # ~160 k records
+def dq(mode): return drive("q-" + mode, 10, 120, mode, 8)      # ~20 k records
+def dt(mode): return drive("t-" + mode, 40, 250, mode, 16)     # ~320 k records
+
+def matrix(stages):
+    return {"kind": "matrix", "configs": ["default", "nodefault", "all"], "profiles": ["release", "debug"], "stages": stages}
 
 PROFILES = {
-    "C01": {"quick": [CORE4, SEED2, dq("mixed")], "thorough": [CORE4, SEED2, dt("mixed"), dt("all")]},
-    "C02": {"quick": [CORE3, SEED2, FAIL2, SIZES2, dq("all")], "thorough": [CORE4, SEED2, FAIL2, SIZES2, dt("all")]},
-    "C03": {"quick": [CORE3, SEED2, FAIL2, dq("all")], "thorough": [CORE4, SEED2, FAIL2, SIZES2, dt("all")]},
+    "C01": {"quick": [CORE4, SEED2, dq("mixed")], "thorough": [CORE5, SEED3, CORE3H, FINAL2, dt("mixed"), dt("all")]},
+    "C02": {"quick": [CORE3, SEED2, FAIL2, SIZES2, dq("all")], "thorough": [CORE4, SEED3, CORE3H, FAILP, SIZES2, PROOF, dt("all")]},
+    "C03": {"quick": [CORE3, SEED2, FAIL2, dq("all")], "thorough": [CORE4, SEED3, CORE3H, FAILP, SIZES2, PROOF, dt("all")]},
     "C04": {"quick": [conc("own2", "{1,2}", "cQuick2", sample_every=200), conc("lend3", "{1,2,3}", "cLend2", sample_every=200)],
             "thorough": [conc("own2", "{1,2}", "cQuick2", sample_every=100), conc("lend3", "{1,2,3}", "cLend2", sample_every=100), conc("own3", "{1,2,3}", "cOwn3", sample_every=400)]},
-    "C05": {"quick": [FAIL2, dq("fail")], "thorough": [FAIL2, dt("fail")]},
-    "C06": {"quick": [SIZES2, dq("sizes")], "thorough": [SIZES2, dt("sizes")]},
-    "C07": {"quick": [IDX1, CORE3, dq("mixed")], "thorough": [IDX1, CORE4, dt("mixed")]},
-    "C08": {"quick": [SEED2, dq("mixed")], "thorough": [SEED2, CORE4, dt("mixed")]},
-    "C09": {"quick": [SEED2, CORE3, dq("mixed")], "thorough": [SEED2, CORE4, dt("mixed")]},
-    "C10": {"quick": [SEED2, dq("mixed")], "thorough": [SEED2, CORE4, dt("mixed")]},
-    "C11": {"quick": [SEED2, CORE3, FAIL2, dq("all")], "thorough": [SEED2, CORE4, FAIL2, SIZES2, dt("all")]},
-    "C12": {"quick": [SEED2, CORE3, FAIL2, dq("all")], "thorough": [SEED2, CORE4, FAIL2, SIZES2, dt("all")]},
-    "C13": {"quick": [SEED2, CORE3, FAIL2, dq("all")], "thorough": [SEED2, CORE4, FAIL2, SIZES2, dt("all")]},
-    "C14": {"quick": [{"kind": "conv"}], "thorough": [{"kind": "conv"}, {"kind": "sweep", "what": "u32"}, {"kind": "sweep", "what": "i32"}]},
-    "C15": {"quick": [{"kind": "conv"}], "thorough": [{"kind": "conv"}, {"kind": "sweep", "what": "f32"}]},
+    "C05": {"quick": [FAIL2, dq("fail")], "thorough": [FAILP, SEED2, dt("fail")]},
+    "C06": {"quick": [SIZES2, dq("sizes")], "thorough": [SIZES2, SHRINK2, dt("sizes")]},
+    "C07": {"quick": [IDX1, CORE3, dq("mixed")], "thorough": [IDX1, CORE4, SEED2, dt("mixed")]},
+    "C08": {"quick": [SEED2, PAIRS2, dq("mixed")], "thorough": [SEED3, CORE4, CORE3H, dt("mixed")]},
+    "C09": {"quick": [SEED2, FINAL2, CONV, dq("mixed")], "thorough": [SEED3, CORE4, FINAL2, CONV, dt("mixed")]},
+    "C10": {"quick": [SEED2, dq("mixed")], "thorough": [SEED3, CORE4, dt("mixed")]},
+    "C11": {"quick": [SEED2, CORE3, FAIL2, dq("all")], "thorough": [SEED3, CORE4, FAIL2, SIZES2, SHRINK2, dt("all")]},
+    "C12": {"quick": [SEED2, CORE3, FAIL2, dq("all")], "thorough": [SEED3, CORE4, FAIL2, SIZES2, SHRINK2, dt("all")]},
+    "C13": {"quick": [SEED2, SHRINK2, FAIL2, dq("all")], "thorough": [SEED3, CORE4, SHRINK2, FAIL2, SIZES2, dt("all")]},
+    "C14": {"quick": [CONV], "thorough": [CONV, {"kind": "sweep", "what": "u32"}, {"kind": "sweep", "what": "i32"}]},
+    "C15": {"quick": [CONV, SEED1], "thorough": [CONV, SEED2, {"kind": "sweep", "what": "f32"}]},
     "C16": {"quick": [{"kind": "codec", "cfg": "MC_Codec_u8_q"}, {"kind": "codec", "cfg": "MC_Codec_u16_q"}],
             "thorough": [{"kind": "codec", "cfg": "MC_Codec_u8_t"}, {"kind": "codec", "cfg": "MC_Codec_u16_t"}]},
-    "C19": {"quick": [{"kind": "codec", "cfg": "MC_Codec_u8_q"}, {"kind": "conv"}], "thorough": [{"kind": "codec", "cfg": "MC_Codec_u8_t"}, {"kind": "conv"}]},
-    "C18": {"quick": [SEED2, dq("callbacks")], "thorough": [SEED2, dt("callbacks")]},
+    "C17": {"quick": [PAIRS2, dq("mixed")], "thorough": [PAIRS2, SEED2, dt("mixed")]},
+    "C18": {"quick": [SEED2, dq("callbacks")], "thorough": [SEED3, FAIL2, dt("callbacks")]},
+    "C19": {"quick": [{"kind": "codec", "cfg": "MC_Codec_u8_q"}, CONV], "thorough": [{"kind": "codec", "cfg": "MC_Codec_u8_t"}, CONV]},
+    "C20": {"quick": [FINAL2, matrix([CORE3, SEED1, drive("q-mixed", 4, 100, "all", 4)])],
+            "thorough": [FINAL2, matrix([CORE3, SEED2, drive("t-mixed", 10, 200, "all", 8)])]},
 }
 
 _SEQ_NOTE = ("Trusted: TLC, the Rust harness (shadow heap, observation code), the add-only hooks. Bounded: pool of 2-3 handles, depth and "
@@ -117,3 +131,6 @@ CLAIMS["C16"] = {"text": "TLC enumerates ALL byte sequences up to length 4 (quic
                  "technique": "TLA+ decoder specification (Codec.tla) exhaustively enumerated by TLC; every enumerated input replayed on the crate"}
 CLAIMS["C19"] = {"text": "Serialize: a recording Serializer sees exactly one serialize_str(text), identical to String's; Deserialize: every enumerated byte sequence through visit_bytes/borrowed_bytes/byte_buf (Ok(text) iff well-formed per Codec.tla) and every well-formed one through visit_str/borrowed_str/string; Arbitrary: same text / same error as <&str>::arbitrary on all inputs up to 3 bytes over 7 classes plus random ones, both entry points.", "note": _CONV_NOTE, "ref": "DESIGN.md 5 C19",
                  "technique": "TLA+ decoder specification enumerated by TLC and replayed through the serde visitors; TLC monitor over recorded serializer calls and arbitrary results"}
+
+CLAIMS["C17"] = {"text": "TLC explores pairs/triples of handles holding the same text behind different representations (inline fresh vs after pop, heap exact vs over-allocated vs truncated, static vs heap vs inline, shared vs unique, 16 bytes inline vs heap) and every pair of live handles of the random drives; the `compare` observation (== in 14 type/order combinations, cmp/partial_cmp/<, hash vs the &str's hash, Display/Debug/padding, AsRef/Borrow/Deref/String::from, HashMap and BTreeMap lookups by &str) must equal what the oracle texts say.", "note": _SEQ_NOTE, "ref": "DESIGN.md 5 C17"}
+CLAIMS["C20"] = {"text": "Niche: the last raw byte of every handle after every replayed call is below 0xD2 and consistent with its kind, Some(handle).is_some() for every live handle, over a scenario with all 192 possible final bytes of a 16-byte inline text; configurations: the replay corpus (core depth 3, seeded depth 1-2, random drives) with the predicates of C01-C03 on harness builds for {default, no-default-features, all features} x {release, debug}; the crate builds with --no-default-features.", "note": _SEQ_NOTE + " A true no_std link test needs a target that is not installed.", "ref": "DESIGN.md 5 C20"}
